@@ -25,7 +25,10 @@ Unforgeability itself is a cryptographic statement and out of reach.  Decided he
 -/
 import SqiProofs.Torsion
 import SqiModel.VerifyDecision
+import SqiModel.VerifyLevels
 import SqiGen.VerifGuard
+
+set_option autoImplicit false
 
 namespace SqiProps.C02
 open SqiModel.Verify SqiProofs.Torsion
@@ -116,6 +119,19 @@ theorem binding_msg_pk_heur (K : Lvl) (hash : J → J → M → Int)
     rcases h1 with h1 | h1 <;> rcases h2 with h2 | h2 <;>
       exact hne (hinj _ _ _ _ _ _ (h1.symm.trans h2)).symm
 
+/-- toy hash used for the non-vacuity example: injective in (pk, m), independent of the commitment -/
+def toyHash : Bool → Bool → Bool → Int := fun _ b c => (if b then 2 else 0) + (if c then 1 else 0)
+def toySig : RawSig := ⟨true, false, 0, 0, 3, 1, 1, 2, 3, 0, 0, 2, 3, 0⟩
+def toyOracle : OracleDim2 := ⟨true, true, true, true, true, true, true, true, 3⟩
+
+/-- non-vacuity of `binding_msg_pk_dim2`: its hypotheses are jointly satisfiable with an accepting run -/
+def toyPk : RawPk := ⟨true, false, 1, 2⟩
+example : (∀ a b c, 0 ≤ toyHash a b c) ∧ (∀ a b c a' b' c', toyHash a b c = toyHash a' b' c' → (b, c) = (b', c')) := by
+  constructor <;> decide
+example : toyOracle.h = toyHash true true true ∧
+    verifyDim2 (fun _ _ _ => true) true L1 toyPk toySig toyOracle = true := by
+  constructor <;> decide +kernel
+
 end binding
 
 /-! ## 3. structural forgeries in the abstract torsion model (all sizes, all entries) -/
@@ -196,6 +212,15 @@ theorem structural_forgery_rejected_trl_pos (g : Lvl → RawPk → RawSig → Bo
     rcases hk with hk | hk
     · omega
     · exact (small_chain_kernel_iff_not_even k t ht _ _ _ _).1 (hs hk) heven
+
+/-- non-vacuity of `structural_forgery_rejected_trl0`: a sound oracle may report a *passing* test only where the abstract
+    point really has full order (here P' = e₁ passes, Q' = 2e₂ and P'−Q' are reported failing); the matrix has even determinant -/
+def evenDetSig : RawSig := ⟨true, false, 0, 0, 1, 0, 0, 2, 5, 0, 0, 0, 0, 0⟩
+def evenDetOracle : OracleDim2 := ⟨true, true, false, false, true, true, true, true, 5⟩
+example : OracleSoundP1 130 evenDetSig evenDetOracle ∧ Even (evenDetSig.m00 * evenDetSig.m11 - evenDetSig.m01 * evenDetSig.m10) := by
+  refine ⟨⟨fun _ => (testOrder_pt_iff 130 (by norm_num) 1 0).2 (Or.inl (by decide)), ?_, ?_⟩, by decide⟩
+  · intro h; simp [evenDetOracle] at h
+  · intro h; simp [evenDetOracle] at h
 
 /-! ## 4. the code performs these tests (translator output) — and the pinned tree did not -/
 
